@@ -95,7 +95,14 @@ impl<SP: StorageProvider, PS: PolicyStore> Transaction<SP, PS> {
         if let Some(p) = Option::take(&mut self.perspective) {
             self.phead = None;
             let parents = mem::replace(&mut self.pparents, Prior::None);
-            let segment = storage.write(p)?;
+            let segment = match storage.write(p) {
+                Ok(segment) => segment,
+                // Nothing was accepted into this perspective (the command it
+                // was opened for was rejected by its policy): there is nothing
+                // to persist and its parents simply remain tips.
+                Err(StorageError::EmptyPerspective) => return Ok(()),
+                Err(e) => return Err(e.into()),
+            };
             // The new segment covers its parents: they are no longer tips.
             for parent in parents {
                 self.heads.remove(&parent);
